@@ -696,4 +696,27 @@ example : peerOf "203.0.113.7:443".toList = "203.0.113.7".toList ∧
           peerOf "2001:db8::1".toList = "2001:db8::1".toList ∧
           peerOf "[::1]".toList = "[::1]".toList ∧ peerOf [] = [] := by decide
 
+/-! ## `IsLocalhost()` — a helper computed from `ClientIP()` alone (Tie: `isLocalhost_from_clientIP_only`) -/
+
+/-- with an untrusted peer `IsLocalhost()` is a function of the peer address: no forwarding header can make a
+    remote client look local (or a local one remote) -/
+theorem untrusted_peer_isLocalhost (r : Req) (h : r.peerTrusted = false) :
+    isLocalhost r = isLocalhostOf r.peer := by
+  simp [isLocalhost, untrusted_peer_noninterference r h]
+
+theorem untrusted_peer_isLocalhost_headers_irrelevant (r : Req) (hdrs' : List Hdr) (mh' : Nat)
+    (h : r.peerTrusted = false) :
+    isLocalhost { r with hdrs := hdrs', maxHops := mh' } = isLocalhost r := by
+  simp [isLocalhost, untrusted_peer_headers_irrelevant r hdrs' mh' h]
+
+/-- non-vacuity: an untrusted remote peer that sends `X-Forwarded-For: 127.0.0.1` is not local; the same header
+    through a trusted proxy decides (that is what trusting the proxy means) -/
+example :
+    isLocalhost { maxHops := 1, peer := "203.0.113.7".toList, peerTrusted := false,
+                  hdrs := [.xff [some ("127.0.0.1".toList, false)]] } = false ∧
+    isLocalhost { maxHops := 1, peer := "10.0.0.1".toList, peerTrusted := true,
+                  hdrs := [.xff [some ("127.0.0.1".toList, false)]] } = true ∧
+    isLocalhostOf "127.8.9.1".toList = true ∧ isLocalhostOf "::1".toList = true ∧
+    isLocalhostOf "1270.0.0.1".toList = false := by decide
+
 end Rivaas.C18
